@@ -189,6 +189,20 @@ func (c *Ctx) liftSite(site ssa.Instruction, root *ssa.Function) ssa.Instruction
 					}
 				}
 			})
+			if len(calls) == 0 {
+				// one of the steps of a local list of closures run in a loop: the call in that loop stands for it
+				allInstrs(f.Parent(), func(ins ssa.Instruction) {
+					ci, ok := ins.(ssa.CallInstruction)
+					if !ok || ci.Common().StaticCallee() != nil || ci.Common().IsInvoke() {
+						return
+					}
+					for _, mc := range localClosureSteps(ci.Common().Value, f.Parent()) {
+						if mc.Fn == ssa.Value(f) {
+							calls = append(calls, ins)
+						}
+					}
+				})
+			}
 			if len(calls) != 1 {
 				return nil
 			}
